@@ -1,6 +1,6 @@
 """C19 - every rule that discover suggests matches the transaction it was suggested for.
 
-Exhaustive: every sequence of <= K tokens over an 18-token alphabet (words, domains, regex metacharacters,
+Exhaustive: every sequence of <= K tokens over a 24-token alphabet (words, domains, regex metacharacters,
 quotes, backslash, store numbers, zip codes, state suffixes, non-ASCII), joined by one or two blanks, with
 every processor prefix.  For each description the real suggestion functions build the rule text; the real
 loader must accept it and the resulting engine must match a transaction with that very description.
@@ -18,15 +18,15 @@ from mc.checks import rules_common as R
 
 PROPERTY = "C19"
 LEVEL = "exploration"
-RULE = ("cases = every sequence of 1..K tokens (K=4 quick, 5 thorough) over 18 tokens (WHOLE, FOODS, netflix.com, C++, (X), AT&T, O'REILLY, "
-        "SAY\"HI\", X\\Y, #12, 1234, 98101, WA, A*B, [Z], $5, Café, a|b) joined by single blanks (plus the double-blank variant for 2-token "
+RULE = ("cases = every sequence of 1..K tokens (K=4 quick, 5 thorough) over 24 tokens (WHOLE, FOODS, netflix.com, C++, (X), AT&T, O'REILLY, "
+        "SAY\"HI\", X\\Y, #12, 1234, 98101, WA, A*B, [Z], $5, Café, a|b, 16\", #B4, PIE#2, WWW.SOUTHWESTAIRLINES.COM, INTERNATIONAL, A.B.C.D.E.F) joined by single blanks (plus the double-blank variant for 2-token "
         "descriptions) x 6 prefixes (none, APLPAY, SQ *, TST*, PP*, GOOGLE *); plus end-to-end discover->append->discover runs on statements of "
         "6 descriptions each. non-trivial = description with >=2 tokens or any non-alphanumeric character; descriptions distinct by construction")
 ASSUMPTIONS = ["the suggested rule is made usable by replacing the CATEGORY/SUBCATEGORY placeholders, nothing else",
                "descriptions are non-empty after stripping (the CSV reader never yields empty ones)"]
 
 TOKENS = ["WHOLE", "FOODS", "netflix.com", "C++", "(X)", "AT&T", "O'REILLY", 'SAY"HI"', "X\\Y", "#12", "1234", "98101", "WA", "A*B",
-          "[Z]", "$5", "Café", "a|b"]
+          "[Z]", "$5", "Café", "a|b", '16"', "#B4", "PIE#2", "WWW.SOUTHWESTAIRLINES.COM", "INTERNATIONAL", "A.B.C.D.E.F"]
 PREFIXES = ["", "APLPAY ", "SQ *", "TST*", "PP*", "GOOGLE *"]
 
 
@@ -39,8 +39,11 @@ def gen_cases(tier):
     for n in range(1, k + 1):
         for seq in itertools.product(range(len(TOKENS)), repeat=n):
             yield {"kind": "unit", "tokens": list(seq)}
+    # long descriptions: a metacharacter at EVERY offset 1..70, so any length-dependent treatment of the pattern is exercised
+    for n in range(1, 71):
+        yield {"kind": "long", "n": n}
     # end-to-end: statements of 6 descriptions taken round-robin from the 2-token descriptions
-    two = [f"{a} {b}" for a in TOKENS for b in TOKENS]
+    two = [f"{a} {b}" for a in TOKENS[:18] for b in TOKENS[:18]]
     chunks = [two[i:i + 6] for i in range(0, len(two), 6)]
     for i, ch in enumerate(chunks):
         if tier == "thorough" or i % 3 == 0:
@@ -155,7 +158,23 @@ def check_e2e(case):
             "sample_repr": {"e2e_descriptions": descs}}
 
 
+def long_descriptions(n):
+    out = []
+    for ch in (".", "*", "$", "(", "+", "\\", '"'):
+        out += ["A" * n + ch + "COM PAYMENT CENTER", "AB " + "C" * n + ch + "D EF", "A" * (n // 2) + " " + "B" * (n - n // 2) + ch + " CD"]
+    return out
+
+
 def check_case(case):
+    if case.get("kind") == "long":
+        viol, evals = [], 0
+        for d in long_descriptions(case["n"]):
+            evals += 1
+            res = check_description(d)
+            if res:
+                viol.append({"kind": res[0], "detail": res[1], "case": {"kind": "desc", "description": d}})
+        return {"evals": evals, "nontrivial": evals, "outcomes": ["long-ok" if not viol else "long-bad"], "violations": viol,
+                "sample_repr": {"long_descriptions": long_descriptions(case["n"])[:2]}}
     if case.get("kind") == "desc":
         res = check_description(case["description"])
         return {"evals": 1, "nontrivial": 1, "outcomes": [],
